@@ -787,10 +787,10 @@ Qed.
 Definition chain4 : list (state -> key -> state * presult) :=
   [speller_process cfg translate; selector_process cfg translate; navigator_process cfg translate; editor_process cfg translate].
 
-Lemma run_chain s k :
+Lemma run_chain kb s k :
   (forall s', punctuator_process cfg translate s' k = (s', PNoop)) \/
   (exists s', speller_process cfg translate s k = (s', PAccepted)) ->
-  run_processors (processors cfg translate) s k = run_processors chain4 s k.
+  run_processors (processors cfg translate kb) s k = run_processors chain4 s k.
 Proof.
   intros H. unfold processors, chain4. destruct Hchain as [(-> & _) | (-> & _)]; [reflexivity|].
   cbn [map proc_of run_processors]. destruct H as [Hn | (s' & ->)]; [|reflexivity].
@@ -811,7 +811,8 @@ Proof.
     assert (Hch : letter ch).
     { unfold ekey_ok in Hk. rewrite Halpha, Hinitials in Hk.
       apply andb_prop in Hk. apply Hk. }
-    unfold process_key. rewrite run_chain by (right; eexists; apply (speller_letter s ch Hch)).
+    unfold process_key, kb_fuel. cbn [process_key_n]. unfold process_key_gen.
+    rewrite run_chain by (right; eexists; apply (speller_letter s ch Hch)).
     unfold chain4. cbn [run_processors key_code_of].
     rewrite (speller_letter s ch Hch). cbv beta iota. cbn [fst snd].
     destruct (push_input_ok (st_ctx s) ch Hok Hch) as (P1 & P2 & P3).
@@ -824,7 +825,8 @@ Proof.
   - (* one of the seven other keys *)
     pose proof (special_of k Elet) as Hsp.
     assert (Hcar : car <= length inp) by apply Hok.
-    unfold process_key. rewrite run_chain by (left; intros s'; apply punctuator_nonletter, special_ge, Hsp).
+    unfold process_key, kb_fuel. cbn [process_key_n]. unfold process_key_gen.
+    rewrite run_chain by (left; intros s'; apply punctuator_nonletter, special_ge, Hsp).
     unfold chain4. cbn [run_processors].
     rewrite (speller_nonletter s _ (special_ge _ Hsp)). cbv beta iota.
     rewrite (selector_special s _ Hok Hsp). cbv beta iota.
